@@ -56,7 +56,12 @@ Polys ==     \* [sup: support per AXIS (integers lo,hi), comps, vec: vector valu
       comps |-> << <<M(2, <<1, 0>>)>>, <<M(1, <<0, 2>>)>>, <<M(5, <<0, 0>>)>> >>],
      [sup |-> << <<0, 1>>, <<1, 2>>, <<-1, 0>> >>, vec |-> TRUE,
       comps |-> << <<M(1, <<1, 0, 0>>), M(1, <<0, 1, 1>>)>>, <<M(2, <<0, 2, 0>>), M(-1, <<1, 0, 1>>)>>, <<M(1, <<1, 1, 1>>)>> >>],
-     [sup |-> << <<0, 2>>, <<0, 1>>, <<0, 3>> >>, vec |-> FALSE, comps |-> << <<M(1, <<0, 0, 2>>), M(2, <<1, 1, 0>>)>> >>] >>
+     [sup |-> << <<0, 2>>, <<0, 1>>, <<0, 3>> >>, vec |-> FALSE, comps |-> << <<M(1, <<0, 0, 2>>), M(2, <<1, 1, 0>>)>> >>],
+     \* constant maps: every component ignores every argument (the callable returns plain numbers)
+     [sup |-> << <<0, 1>>, <<0, 2>> >>, vec |-> TRUE, comps |-> << <<M(3, <<0, 0>>)>>, <<M(-1, <<0, 0>>)>> >>],
+     [sup |-> << <<0, 2>> >>, vec |-> TRUE, comps |-> << <<M(2, <<0>>)>>, <<M(5, <<0>>)>> >>],
+     [sup |-> << <<0, 1>>, <<0, 1>> >>, vec |-> FALSE, comps |-> << <<M(4, <<0, 0>>)>> >>],
+     [sup |-> << <<0, 1>>, <<0, 1>>, <<0, 1>> >>, vec |-> TRUE, comps |-> << <<M(1, <<0, 0, 0>>)>>, <<M(2, <<0, 0, 0>>)>>, <<M(3, <<0, 0, 0>>)>> >>] >>
 
 (* polynomial inner maps into [0,2] x [0,3]-like boxes, for compositions with a user-defined geo1 *)
 InnerPolys ==
